@@ -104,6 +104,8 @@ namespace Givaro
         Element& init(Element& r, const double a) const;
         Element& init(Element& r, const int64_t a) const;
         Element& init(Element& r, const uint64_t a) const;
+        Element& init(Element& r, const uint32_t a) const // the template below would narrow a to int32_t first
+        { return init(r, static_cast<uint64_t>(a)); }
         Element& init(Element& r, const Integer& a) const;
         template<typename T> Element& init(Element& r, const T& a) const
         { r = Caster<Element>(a); return reduce(r); }
